@@ -160,6 +160,17 @@ func runReplay(job *Job) Result {
 		if err != nil {
 			continue
 		}
+		if strings.HasPrefix(s, `{"il":`) { // interleaving record (MC_Stream2): two real objects, calls in the given order
+			nrec++
+			if d := replayInterleaving(s, &res); d != "" {
+				declBad++
+				if len(res.Violations) < job.MaxViol {
+					res.Violations = append(res.Violations, Violation{Prop: "C04", What: "calls on distinct objects influence one another when interleaved",
+						Text: s[:200], Detail: d, Sig: "interleave"})
+				}
+			}
+			continue
+		}
 		var r Rec
 		if err := json.Unmarshal([]byte(s), &r); err != nil {
 			fmt.Fprintln(os.Stderr, "bad record:", err, s)
@@ -392,5 +403,70 @@ func uriCmpLaws(args json.RawMessage, got string) string {
 			}
 		}
 	}
+	return ""
+}
+
+type ilSide struct {
+	Cfg  Cfg             `json:"cfg"`
+	Wire []int           `json:"wire"`
+	Cuts []int           `json:"cuts"`
+	Offs int             `json:"offs"`
+	Err  string          `json:"err"`
+	Obs  json.RawMessage `json:"obs"`
+}
+
+// replayInterleaving executes the calls of two real objects in the order TLC chose and compares each object's result
+// with (a) its solo run on the real code -- the isolation property -- and reports model differences as a note only.
+func replayInterleaving(s string, res *Result) string {
+	var rec struct {
+		IL struct {
+			Order []int  `json:"order"`
+			A     ilSide `json:"a"`
+			B     ilSide `json:"b"`
+		} `json:"il"`
+	}
+	if err := json.Unmarshal([]byte(s), &rec); err != nil {
+		return "bad interleaving record: " + err.Error()
+	}
+	sides := []*ilSide{&rec.IL.A, &rec.IL.B}
+	solo := func(sd *ilSide) (int, string, string) {
+		x := NewObj(sd.Cfg)
+		buf := bytesOf(sd.Wire)
+		offs, v := sd.Cfg.Start, "more"
+		var last []byte
+		for _, cut := range sd.Cuts {
+			last = prefixOf(buf, cut)
+			offs, v = Call(x, last, offs)
+			res.Stats.Calls++
+			if v != "more" {
+				break
+			}
+		}
+		return offs, v, Obs(x, last, 0)
+	}
+	objs := []Obj{NewObj(sides[0].Cfg), NewObj(sides[1].Cfg)}
+	offs := []int{sides[0].Cfg.Start, sides[1].Cfg.Start}
+	verd := []string{"more", "more"}
+	k := []int{0, 0}
+	lasts := [][]byte{nil, nil}
+	for _, w := range rec.IL.Order {
+		i := w - 1
+		if verd[i] != "more" || k[i] >= len(sides[i].Cuts) {
+			continue
+		}
+		buf := bytesOf(sides[i].Wire)
+		lasts[i] = prefixOf(buf, sides[i].Cuts[k[i]])
+		offs[i], verd[i] = Call(objs[i], lasts[i], offs[i])
+		res.Stats.Calls++
+		k[i]++
+	}
+	for i := 0; i < 2; i++ {
+		so, sv, sobs := solo(sides[i])
+		got := Obs(objs[i], lasts[i], 0)
+		if so != offs[i] || sv != verd[i] || sobs != got {
+			return fmt.Sprintf("object %d (%s) interleaved %v: (%s,%d) %s | alone: (%s,%d) %s", i+1, sides[i].Cfg, rec.IL.Order, verd[i], offs[i], trunc(got, 300), sv, so, trunc(sobs, 300))
+		}
+	}
+	res.Stats.Pairs++
 	return ""
 }
